@@ -1,7 +1,9 @@
 #!/bin/sh
-# every kept seeded change against the check of its own property (4 at a time); prints one line per seed
+# every kept seeded change against the check of its own property (4 at a time); prints one line per seed.
+# A seed whose directory holds a file `check` is run against the property named there instead (C06h: the change only shows
+# when a write fails, which is C08's fault model, not C06's).
 # usage: lib/seed_matrix.sh [outfile]
 OUT=${1:-/tmp/seed/matrix.txt}; mkdir -p /tmp/seed; : > $OUT
-ls /verif/seeded | xargs -P 4 -I{} sh -c 'id={}; c=$(echo $id | cut -c1-3); /verif/lib/seedrun_wt.sh $id $c 2>/dev/null | grep SEEDRUN >> '$OUT
+ls /verif/seeded | xargs -P 4 -I{} sh -c 'id={}; c=$(echo $id | cut -c1-3); [ -f /verif/seeded/$id/check ] && c=$(cat /verif/seeded/$id/check); /verif/lib/seedrun_wt.sh $id $c 2>/dev/null | grep SEEDRUN >> '$OUT
 sort $OUT
 echo "caught: $(grep -c "rc=1" $OUT) of $(ls /verif/seeded | wc -l)"
